@@ -154,10 +154,12 @@ where
     T: AsRef<Path>,
 {
     fn bytecode_str(&self) -> String {
-        self.as_ref()
-            .to_str()
-            .expect("path contains non-standard characters")
-            .replace('\\', "/")
+        bytecode::compilation_bridge::spelled_with_slashes(
+            self.as_ref()
+                .to_str()
+                .expect("path contains non-standard characters")
+                .to_owned(),
+        )
     }
 }
 
